@@ -46,15 +46,15 @@ Section Spec.
     end.
 
   (* a loop: Break ends it normally, Continue and Normal go to the next pass, Return and Raise leave it *)
-  Fixpoint o_while (body : state -> ores) (c : expr) (j : nat) (st : state) : ores :=
+  Fixpoint o_while (body : state -> ores) (c : expr) (l : Z) (j : nat) (st : state) : ores :=
     match j with
     | O => OFuel
     | S j' =>
-      ebind (ev st c) (fun cv s1 =>
+      ebind (ev (set_line st l) c) (fun cv s1 =>
         match cv with
         | VBool true =>
           match body s1 with
-          | OR (ONormal _) s2 | OR OContinue s2 => o_while body c j' s2
+          | OR (ONormal _) s2 | OR OContinue s2 => o_while body c l j' s2
           | OR OBreak s2 => OR (ONormal VNull) s2
           | o => o
           end
@@ -114,7 +114,7 @@ Section Spec.
     | S k' =>
       match s with
       | SDecl pairs => lift (decl_pairs ev k' pairs st) (fun v => v)
-      | SWhile c body => o_while (fun s1 => o_block k' s1 body) c k' st
+      | SWhile c body => o_while (fun s1 => o_block k' s1 body) c (cur_line st) k' st
       | SBranch c t others els =>
         ebind (ev st c) (fun cv s1 =>
           match cv with
